@@ -12,6 +12,18 @@ def observe(spec, inputs):
         pts = inputs["pts"]
         nd = spec["ndim"]
         arr = numpy.array(pts[0][0] if nd == 1 else (pts[0] if nd == 2 else pts), dtype=numpy.int64)
+        M = numpy.asarray(M)
+        if spec.get("edit"):
+            # inputs["A"], inputs["b"] hold the content AFTER the edit; start from a different content, call, then edit in place
+            M0 = M.copy()
+            M0[0, 0] = M[0, 0] + 7
+            M0[spec["rows"] - 1, spec["cols"]] = M[spec["rows"] - 1, spec["cols"]] - 5
+            P = n.pnd.ge_polyhedron(M0)
+            for f_ in ("ineqs_satisfied", "separable", "ineq_separate_points"):
+                getattr(P, f_)(arr)
+            P.to_linalg()
+            P[0, 0] = M[0, 0]
+            P[spec["rows"] - 1, spec["cols"]] = M[spec["rows"] - 1, spec["cols"]]
         res = numpy.asarray(getattr(P, spec["fn"])(arr))
         out["res"] = res.astype(int).tolist()
         out["shape"] = list(res.shape)
